@@ -67,3 +67,12 @@ Definition gquery_nontrivial (w : world) (q : glet * gres) : bool :=
   end.
 Definition gcount_nontrivial (cases : list glet_case) : nat :=
   count_true (map (fun c : glet_case => existsb (gquery_nontrivial (fst c)) (snd c)) cases).
+
+(* a history: the same greenlet objects inspected at several moments; every round is compared
+   with the model on the world and the greenlet attributes as they are then *)
+Definition ghist_case := list glet_case.
+Definition ghist_ok (h : ghist_case) : bool := forallb gcase_ok h.
+Definition ghist_mismatches (cases : list ghist_case) : list nat := false_indices 0 (map ghist_ok cases).
+Definition ghist_nontrivial (cases : list ghist_case) : nat :=
+  count_true (map (fun h : ghist_case => (2 <=? length h)
+                     && existsb (fun c : glet_case => existsb (gquery_nontrivial (fst c)) (snd c)) h) cases).
